@@ -283,18 +283,19 @@ let roots_by_structure (c : case) (st : factor list option) : rnum list option =
     let linear (a : mpoly) (b : mpoly) =
       if sign_poly c None a = 0 then (if sign_poly c None b = 0 then zero := true)
       else begin
-        let ar = reduce_rationals c None a and br = reduce_rationals c None b in
-        match List.sort_uniq compare (vars_of ar @ vars_of br) with
+        (* substitute the rational values in a*y - b as a whole: ONE positive multiplier for both coefficients *)
+        let yv = mp_var_pow c.y (n_of_int 1) in
+        let f = reduce_rationals c None (mp_sub (mp_mul a yv) b) in
+        let cs = mp_coeffs c.y f in
+        let c0 = (try List.nth cs 0 with _ -> []) and c1 = (try List.nth cs 1 with _ -> []) in
+        match List.sort_uniq compare (vars_of c0 @ vars_of c1) with
         | [] | [_] as vs ->
           let (x, alpha) = (match vs with [x] -> (n_of_int x, List.assoc x c.assign) | _ -> (n_of_int 0, RQ q0)) in
-          (* reduce_rationals multiplies a and b by different positive constants: redo with a common one *)
-          let yv = mp_var_pow c.y (n_of_int 1) in
-          let f = reduce_rationals c None (mp_sub (mp_mul a yv) b) in
-          let cs = mp_coeffs c.y f in
-          let num = mp_to_upoly x (mp_neg (List.nth cs 0)) and den = mp_to_upoly x (List.nth cs 1) in
+          let num = mp_to_upoly x (mp_neg c0) and den = mp_to_upoly x c1 in
           roots := value_alg num den alpha :: !roots
         | _ ->
-          let av = value_poly c a and bv = value_poly c b in
+          (* c0, c1 contain no rationally assigned variable any more, so value_poly adds no further multiplier *)
+          let av = value_poly c c1 and bv = value_poly c (mp_neg c0) in
           roots := simplify (some_or_fuel (rn_div fuel bv av)) :: !roots
       end in
     List.iter (fun f -> match f with
@@ -306,6 +307,27 @@ let roots_by_structure (c : case) (st : factor list option) : rnum list option =
           let q0' = nth 0 and q1 = nth 1 and q2 = nth 2 in
           if List.length cs > 3 then unsupported := true
           else if sign_poly c None q2 = 0 then linear q1 (mp_neg q0')
+          else if mp_is_zero q1 || sign_poly c None q1 = 0 then begin
+            (* q2 y^2 + q0: the discriminant has the sign of -q2*q0; with real roots +-r the generator supplies r > 0
+               as a value token (sqrt=...), accepted only after r^2 = -q0/q2 has been checked exactly *)
+            let s = - (sign_poly c None q2) * (sign_poly c None q0') in
+            if s < 0 then ()
+            else if s = 0 then roots := RQ q0 :: !roots
+            else begin
+              let key = "sqrt=" in
+              let toks = List.filter (fun t -> String.length t > 5 && String.sub t 0 5 = key) c.extra in
+              match toks with
+              | [t] ->
+                let r = simplify (rnum_of_token (String.sub t 5 (String.length t - 5))) in
+                let fq = mp_coeffs c.y (reduce_rationals c None q) in          (* one common positive multiplier *)
+                let f0 = (try List.nth fq 0 with _ -> []) and f2 = (try List.nth fq 2 with _ -> []) in
+                let target = simplify (some_or_fuel (rn_div fuel (rn_neg (value_poly c f0)) (value_poly c f2))) in
+                let r2 = simplify (some_or_fuel (rn_mul fuel r r)) in
+                if sgn_of_z (rn_sgn r) > 0 && eq_rn r2 target then roots := r :: rn_neg r :: !roots
+                else raise (Model_error "sqrt= token is not the positive square root of -q0/q2")
+              | _ -> unsupported := true
+            end
+          end
           else begin
             let disc = mp_sub (mp_mul q1 q1) (mp_scale (zi 4) (mp_mul q2 q0')) in
             let s = (try sign_poly c None disc with Skip _ -> 2) in
